@@ -189,6 +189,7 @@ def run_unit(unit, workdir, seed=0, probes=True, jobs=8):
   res = run_verus(path, args)
   out["cmd"] = res["cmd"]
   out["functions"] = gen.functions
+  out["assumed_callees"] = gen.assumed_callees
   out["drops"] = gen.drops
   out["trusted_scan"] = scan_trusted(gen.lines)
   out["generated_file"] = path
@@ -217,19 +218,11 @@ def run_unit(unit, workdir, seed=0, probes=True, jobs=8):
                                "backend": "verus/z3", "verdict": "failed" if clean in failed_names else "discharged",
                                "ms": round(tm[0]["ms"], 1) if tm else None})
   for fdesc in gen.functions:
-    nm = "%s.safety" % fdesc["fn"].split("::")[-1]
     alt = "%s.safety" % fdesc["fn"]
-    bad = nm in failed_names or alt in failed_names
+    bad = alt in failed_names
     out["obligations"].append({"name": alt, "props": list(unit.safety_props), "fn": fdesc["fn"], "kind": "safety",
                                "text": "all Verus-generated obligations in the verbatim body: no overflow/underflow, indices and slices in bounds, callee preconditions, termination measures",
                                "backend": "verus/z3", "verdict": "failed" if bad else "discharged", "ms": None})
-  # normalise safety failure names to qualified
-  for f in fails:
-    if f["name"].endswith(".safety"):
-      for fdesc in gen.functions:
-        if fdesc["fn"].split("::")[-1] == f["fn"] or fdesc["fn"] == f["fn"]:
-          f["name"] = fdesc["fn"] + ".safety"
-          f["fn"] = fdesc["fn"]
   out["failures"] = fails
   out["undecided"] = undec
   # ---- vacuity probes: per function, `ensures false` must be rejected
@@ -251,10 +244,12 @@ def run_unit(unit, workdir, seed=0, probes=True, jobs=8):
         g2 = vx.generate(u2, probe=False)
       except vx.VxError as e:
         return f.name, "error: %s" % e
-      p2 = os.path.join(workdir, "%s.probe%d.rs" % (unit.name, i))
+      p2 = os.path.join(workdir, "%s_probe%d.rs" % (unit.name, i))
       open(p2, "w").write("\n".join(g2.lines))
       fnn = f.rename.split("::")[-1] if f.rename else f.name
-      r2 = run_verus(p2, ["--verify-root", "--verify-function", "*::" + fnn if False else fnn] + args, timeout=300)
+      if f.emit_impl:
+        fnn = re.sub(r"^impl\s+", "", f.emit_impl).split("<")[0].strip() + "::" + fnn
+      r2 = run_verus(p2, ["--verify-root", "--verify-function", "*" + fnn] + args, timeout=300)
       hit = False
       for d in r2["diags"]:
         for s in d.get("spans", []):
